@@ -1,3 +1,4 @@
 SPECIFICATION Spec
 INVARIANT NoCodeRefused
+INVARIANT PartialRefused
 CHECK_DEADLOCK FALSE
